@@ -3,7 +3,7 @@
 use crate::run::{CaseResult, Ctx, Gen, Obs};
 use crate::util::Src;
 
-pub const RULE: &str = "Configurations `arbitrary` and all-features+`arbitrary`. Inputs of length 0..=4096: all-zero, all-0xFF and every single-byte-repeated pattern (256 patterns x a ladder of lengths; thorough: every length), and proptest byte strings assembled from a weighted mix of uniform bytes, ASCII, well-formed 2/3/4-byte UTF-8 sequences and ill-formed pieces (lone continuation bytes, truncated leads, overlongs, surrogates, 0xF8..0xFF), with length-prefix-like words biased towards capacities. plus layout-aware inputs that follow the order in which the hand-written Arbitrary impls consume data (variant selector, 8-byte little-endian length, text window, lengths of borrowed strings at the end of the input) with the declared length at capacity-3..capacity+7 and the window end before, inside or after a multi-byte character whose remaining bytes follow. Each input is fed to <ctap1::Request>, <ctap2::Request> and <authenticator::Request as Arbitrary>::arbitrary. Oracle: no panic/abort; Err is NotEnoughData; Ok(req): a harness-side walker visits every public field - every String<N> and &str passes core::str::from_utf8 on its raw bytes, every String/Bytes/Vec is within its capacity, known formats <= 2, filtered parameters <= 2 with alg in {-7,-8}; Debug-formatting, clone and == clone complete and agree; dispatching through the C10 recording mock returns. Non-trivial: an Ok result whose input contained a non-ASCII byte (the unchecked UTF-8 path may have been taken) or which holds a bounded field at capacity; distinct by (entry point, input).";
+pub const RULE: &str = "Configurations `arbitrary` and all-features+`arbitrary`. Inputs of length 0..=4096: all-zero, all-0xFF and every single-byte-repeated pattern (256 patterns x a ladder of lengths; thorough: every length), and proptest byte strings assembled from a weighted mix of uniform bytes, ASCII, well-formed 2/3/4-byte UTF-8 sequences and ill-formed pieces (lone continuation bytes, truncated leads, overlongs, surrogates, 0xF8..0xFF), with length-prefix-like words biased towards capacities. plus layout-aware inputs that follow the order in which the hand-written Arbitrary impls consume data (variant selector, 8-byte little-endian length, text window, lengths of borrowed strings at the end of the input) with the declared length at capacity-3..capacity+7 and the window end before, inside or after a multi-byte character whose remaining bytes follow. Each input is fed to <ctap1::Request>, <ctap2::Request> and <authenticator::Request as Arbitrary>::arbitrary. Oracle: no panic/abort; Err is NotEnoughData; Ok(req): a harness-side walker visits every public field - every String<N> and &str passes core::str::from_utf8 on its raw bytes, every String/Bytes/Vec is within its capacity, every borrowed member (&[u8], &str, &[u8; N], &ByteArray<N>) points into the input buffer it borrows from, known formats <= 2, filtered parameters <= 2 with alg in {-7,-8}; Debug-formatting, clone and == clone complete and agree; dispatching through the C10 recording mock returns. Non-trivial: an Ok result whose input contained a non-ASCII byte (the unchecked UTF-8 path may have been taken) or which holds a bounded field at capacity; distinct by (entry point, input).";
 pub const ASSUMPTIONS: &[&str] = &[
     "VendorOperation's derived Arbitrary can yield codes outside 0x40..0x7F; the statement's validity list does not include the vendor range, so it is recorded, not asserted",
     "an invalid str that happens not to crash is only visible to from_utf8 on the raw bytes (and to Miri in the thorough tier)",
@@ -40,6 +40,22 @@ mod with_arb {
     struct Walk {
         at_capacity: bool,
         vendor_out_of_range: bool,
+        /// address range of the input the request was generated from: every borrowed member
+        /// (`&'a [u8]`, `&'a str`, `&'a [u8; N]`, `&'a ByteArray<N>`) must point into it
+        input: (usize, usize),
+    }
+
+    /// a borrowed, non-empty member must lie inside the input buffer it claims to borrow from
+    fn borrowed(w: &Walk, what: &str, ptr: *const u8, len: usize) -> W {
+        if len == 0 {
+            return Ok(());
+        }
+        let (lo, hi) = w.input;
+        let p = ptr as usize;
+        if p < lo || p.checked_add(len).map(|e| e > hi).unwrap_or(true) {
+            return Err(format!("{}: borrowed member ({} bytes at {:#x}) does not point into the input buffer ({:#x}..{:#x})", what, len, p, lo, hi));
+        }
+        Ok(())
     }
 
     type W = Result<(), String>;
@@ -79,8 +95,10 @@ mod with_arb {
         }
         Ok(())
     }
-    fn desc(_w: &mut Walk, what: &str, d: &ctap_types::webauthn::PublicKeyCredentialDescriptorRef) -> W {
-        utf8(&format!("{}.type", what), d.key_type.as_bytes())
+    fn desc(w: &mut Walk, what: &str, d: &ctap_types::webauthn::PublicKeyCredentialDescriptorRef) -> W {
+        utf8(&format!("{}.type", what), d.key_type.as_bytes())?;
+        borrowed(w, &format!("{}.type", what), d.key_type.as_ptr(), d.key_type.len())?;
+        borrowed(w, &format!("{}.id", what), d.id.as_ptr(), d.id.len())
     }
     fn formats(w: &mut Walk, what: &str, f: &ctap2::AttestationFormatsPreference) -> W {
         if f.known_formats().len() > 2 {
@@ -99,6 +117,10 @@ mod with_arb {
     fn walk2(w: &mut Walk, r: &ctap2::Request) -> W {
         match r {
             ctap2::Request::MakeCredential(m) => {
+                borrowed(w, "clientDataHash", m.client_data_hash.as_ptr(), m.client_data_hash.len())?;
+                if let Some(p) = m.pin_auth {
+                    borrowed(w, "pinAuth", p.as_ptr(), p.len())?;
+                }
                 hs(w, "rp.id", &m.rp.id)?;
                 if let Some(n) = &m.rp.name {
                     hs(w, "rp.name", n)?;
@@ -129,6 +151,11 @@ mod with_arb {
             }
             ctap2::Request::GetAssertion(g) => {
                 utf8("rpId", g.rp_id.as_bytes())?;
+                borrowed(w, "rpId", g.rp_id.as_ptr(), g.rp_id.len())?;
+                borrowed(w, "clientDataHash", g.client_data_hash.as_ptr(), g.client_data_hash.len())?;
+                if let Some(p) = g.pin_auth {
+                    borrowed(w, "pinAuth", p.as_ptr(), p.len())?;
+                }
                 if let Some(l) = &g.allow_list {
                     if l.len() > 10 {
                         return Err("allowList over capacity".into());
@@ -157,15 +184,34 @@ mod with_arb {
                 }
                 if let Some(s) = c.rp_id {
                     utf8("rpId", s.as_bytes())?;
+                    borrowed(w, "rpId", s.as_ptr(), s.len())?;
+                }
+                for (n, m) in [("pinAuth", c.pin_auth), ("newPinEnc", c.new_pin_enc), ("pinHashEnc", c.pin_hash_enc)] {
+                    if let Some(p) = m {
+                        borrowed(w, n, p.as_ptr(), p.len())?;
+                    }
                 }
             }
             ctap2::Request::CredentialManagement(c) => {
+                if let Some(p) = c.pin_auth {
+                    borrowed(w, "pinAuth", p.as_ptr(), p.len())?;
+                }
                 if let Some(p) = &c.sub_command_params {
+                    if let Some(h) = p.rp_id_hash {
+                        borrowed(w, "rpIdHash", h.as_ptr(), h.len())?;
+                    }
                     if let Some(d) = &p.credential_id {
                         desc(w, "credentialID", d)?;
                     }
                     if let Some(u) = &p.user {
                         user(w, "user", u)?;
+                    }
+                }
+            }
+            ctap2::Request::LargeBlobs(l) => {
+                for (n, m) in [("set", l.set), ("pinUvAuthParam", l.pin_uv_auth_param)] {
+                    if let Some(p) = m {
+                        borrowed(w, n, p.as_ptr(), p.len())?;
                     }
                 }
             }
@@ -178,6 +224,21 @@ mod with_arb {
             _ => {}
         }
         Ok(())
+    }
+
+    fn walk1(w: &Walk, r: &ctap1::Request) -> W {
+        match r {
+            ctap1::Request::Register(x) => {
+                borrowed(w, "challenge", x.challenge.as_ptr(), 32)?;
+                borrowed(w, "appId", x.app_id.as_ptr(), 32)
+            }
+            ctap1::Request::Authenticate(x) => {
+                borrowed(w, "challenge", x.challenge.as_ptr(), 32)?;
+                borrowed(w, "appId", x.app_id.as_ptr(), 32)?;
+                borrowed(w, "keyHandle", x.key_handle.as_ptr(), x.key_handle.len())
+            }
+            ctap1::Request::Version => Ok(()),
+        }
     }
 
     fn check_value<T: core::fmt::Debug + Clone + PartialEq>(what: &str, v: &T) -> W {
@@ -277,10 +338,10 @@ mod with_arb {
                 .with_concrete("c19_concrete", payload.clone())
         };
         let mut u = Unstructured::new(data);
-        let mut w = Walk { at_capacity: false, vendor_out_of_range: false };
+        let mut w = Walk { at_capacity: false, vendor_out_of_range: false, input: (data.as_ptr() as usize, data.as_ptr() as usize + data.len()) };
         let res: Result<(), (String, String)> = match entry {
             0 => match <ctap1::Request as Arbitrary>::arbitrary(&mut u) {
-                Ok(r) => check_value("ctap1::Request", &r).and_then(|_| dispatch1(&r)).map_err(|m| ("invalid-value".to_string(), m)),
+                Ok(r) => walk1(&w, &r).and_then(|_| check_value("ctap1::Request", &r)).and_then(|_| dispatch1(&r)).map_err(|m| ("invalid-value".to_string(), m)),
                 Err(arbitrary::Error::NotEnoughData) => Err(("not-enough-data".into(), String::new())),
                 Err(e) => Err(("unexpected-error".into(), format!("{:?}", e))),
             },
@@ -292,7 +353,7 @@ mod with_arb {
             _ => match <authenticator::Request as Arbitrary>::arbitrary(&mut u) {
                 Ok(r) => {
                     let inner = match &r {
-                        authenticator::Request::Ctap1(x) => dispatch1(x),
+                        authenticator::Request::Ctap1(x) => walk1(&w, x).and_then(|_| dispatch1(x)),
                         authenticator::Request::Ctap2(x) => walk2(&mut w, x).and_then(|_| dispatch2(x)),
                     };
                     inner.and_then(|_| check_value("authenticator::Request", &r)).map_err(|m| ("invalid-value".to_string(), m))
